@@ -53,6 +53,10 @@ MIXIN_PRELUDE = ("from enum import IntEnum\n"
 ITEMS = [{"k": "int"}, {"k": "float"}, {"k": "str"}, {"k": "bool"}, {"k": "path"}, COLOR, PRIO, TAG]
 
 
+ENUM_ENV_COQ = ('(mkenv [' + clist([cstr(m) for m in TAG["members"]]) + '] [(' + clist([cstr(m) for m in PRIO["members"]]) + ', "ZERO"); ('
+                + clist([cstr(m) for m in TAG["members"]]) + ', "EMPTY")])')
+
+
 def _mixins(rng, t):
     """replace some of the plain Enum types of a sampled type by the IntEnum / str-Enum"""
     if t["k"] == "enum":
@@ -320,6 +324,13 @@ def intended(node):
     return [[f["name"], f["value"] if "ty" in f else ({"t": "none"} if _absent(f) else intended(f["cls"]))] for f in node["fields"]]
 
 
+def _msg(text):
+    """the telling part of a message: for argparse's usage + error output, the error line"""
+    lines = [ln for ln in text.strip().splitlines() if ln.strip()]
+    err = [ln for ln in lines if ": error: " in ln]
+    return (err[-1].split(": error: ", 1)[1] if err else text.strip())[:300]
+
+
 def _tree_of_obj(v, ns):
     """a dataclass instance -> [[name, canonical value | subtree]]; every nested dataclass must be an instance of the class declared in
     THIS case's namespace (class names repeat from case to case), every path exactly a pathlib.Path"""
@@ -489,7 +500,7 @@ def run_impl(cases):
                 obs_steps.append({"stage": st["stage"], "built_ok": st.get("built") == intended(schema),
                                   "outcome": r[:2] if r[0] != "ok" else ["ok"], "inst": r[1] if r[0] == "ok" else None,
                                   "eq": st.get("eq"), "file": st.get("file"),
-                                  "msg": (r[2][:200] if len(r) > 2 and isinstance(r[2], str) else "") if r[0] != "ok" else ""})
+                                  "msg": (_msg(r[2]) if len(r) > 2 and isinstance(r[2], str) else "") if r[0] != "ok" else ""})
             try:
                 os.remove(path)
             except OSError:
@@ -535,7 +546,8 @@ def _diffs(node, got, path=""):
     return out
 
 
-KNOWN_CLASSES = ("null-saved:definition-default-back", "items-stay-str:enum", "items-stay-str:path", "items-stay-str:enum+path")
+KNOWN_CLASSES = ("null-saved:definition-default-back", "items-stay-str:enum", "items-stay-str:path", "items-stay-str:enum+path",
+                 "str-enum-default:optional-field:exit2", "str-enum-default:falsy-member:KeyError")
 
 
 def _findings_step(case, schema, obs):
@@ -549,6 +561,17 @@ def _findings_step(case, schema, obs):
         if obs["stage"] == "parse" and obs["outcome"][:2] == ["raise", "TypeError"] and "'NoneType' object is not iterable" in obs["msg"] \
                 and _absent_member_with_bare_tuple(schema):
             sig = "none-member:tuple-field-without-default:TypeError"
+        used = _defaults_in_use(effective(schema))
+        # a member of the (str, Enum) class as the definition default of an Optional[Tag] field that falls back to it (None saved, or the
+        # field sits in a member that is None): argparse sends the member (a str) through the by-name converter
+        if obs["stage"] == "parse" and obs["outcome"][:2] == ["exit", 2] and "invalid Tag value: <Tag." in obs["msg"] \
+                and any(t["k"] == "opt" and t["item"] == TAG and d is not None and d.get("t") == "enum" for t, d in used):
+            sig = "str-enum-default:optional-field:exit2"
+        # the falsy member of the (str, Enum) class as the definition default of a Tag field of a member that is None: not turned into its
+        # name (`if self.default:`), then taken for a str default: Tag[str(member)]
+        if obs["stage"] == "parse" and obs["outcome"][:2] == ["raise", "KeyError"] and obs["msg"] == "'Tag.EMPTY'" \
+                and any(t == TAG and d == {"t": "enum", "c": "Tag", "v": "EMPTY"} for t, d in used):
+            sig = "str-enum-default:falsy-member:KeyError"
         return [(sig, f"{obs['stage']} ended with {obs['outcome']} ({obs['msg']}) {where}")]
     out = []
     for p, f, g in _diffs(effective(schema), obs["inst"]):
@@ -617,6 +640,19 @@ def _verdict(case, obs):
 def py_spec(case, obs):
     v = _verdict(case, obs)
     return v[1] if v else None
+
+
+def _defaults_in_use(node, absent=False):
+    """(type, effective definition default) of every leaf whose value the parser takes from the definition default: None was saved for
+    it, or it belongs to an `Optional[Class] = None` member that is None"""
+    out = []
+    for f in node["fields"]:
+        if "ty" in f:
+            if absent or f["value"].get("t") == "none":
+                out.append((f["ty"], f["default"]))
+        else:
+            out += _defaults_in_use(f["cls"], absent or _absent(f))
+    return out
 
 
 def _bare_tuple_inside(node):
@@ -726,7 +762,7 @@ def to_coq(case, obs):
         step2 = "(Some " + cpair(_inst_coq(intended(case["schema2"])), _obs_coq(obs["step2"])) + ")"
     via = "RCtor" if case["via"] == "ctor" else "RCli"
     api = "AParse" if case["api"] == "parse" else "AParser"
-    return (f"mkcase {_schema_coq(effective(case['schema']))} {_inst_coq(intended(case['schema']))} {cstr('.' + case['fmt'])} {via} {api} "
+    return (f"mkcase {ENUM_ENV_COQ} {_schema_coq(effective(case['schema']))} {_inst_coq(intended(case['schema']))} {cstr('.' + case['fmt'])} {via} {api} "
             f"{_obs_coq(obs)} {step2}")
 
 
